@@ -14,7 +14,7 @@ PROPS = {
                       ("dechdr", 800, 50000), ("hacc", 600, 30000)]),
     "C07": dict(fams=[("tbsgrid", 0, 0), ("depthgrid", 0, 0), ("v1", 3000, 200000), ("vm", 1500, 100000), ("dec", 1500, 100000), ("reenc", 500, 20000)],
                 real=[("foreign", 100, 5000)]),
-    "C08": dict(fams=[("encgrid", 0, 0), ("depthgrid", 0, 0), ("enc", 3000, 300000), ("s1", 800, 40000), ("sm", 400, 20000), ("cs", 400, 20000),
+    "C08": dict(fams=[("encgrid", 0, 0), ("hdrgrid", 0, 0), ("depthgrid", 0, 0), ("enc", 3000, 300000), ("s1", 800, 40000), ("sm", 400, 20000), ("cs", 400, 20000),
                       ("keyrt", 200, 3000), ("he", 300, 10000)]),
     "C09": dict(fams=[("seqgrid", 40, 2000), ("tbsgrid", 0, 0), ("reenc", 4000, 400000)]),
     "C10": dict(fams=[("tbsgrid", 0, 0), ("cs", 4000, 300000)]),
@@ -52,14 +52,14 @@ ASSUMPTIONS = [
 
 # additional theorem modules per property (namespace Cxx), beyond CoseProofs.Props.Cxx
 DEEP = {
-    "C01": ["CoseProofs.Deep.Chain", "CoseProofs.Deep.WireClosure", "CoseProofs.SignersTie", "CoseProofs.Deep.Signers", "CoseProofs.Deep.SignWireClosure"],
-    "C02": ["CoseProofs.Deep.Tbs"],
+    "C01": ["CoseProofs.Deep.Chain", "CoseProofs.Deep.WireClosure", "CoseProofs.SignersTie", "CoseProofs.Deep.Signers", "CoseProofs.Deep.SignWireClosure", "CoseProofs.Deep.NestedBuckets"],
+    "C02": ["CoseProofs.Deep.Tbs", "CoseProofs.SignersTie"],
     "C03": ["CoseProofs.Deep.Tbs", "CoseProofs.Deep.Tamper", "CoseProofs.SignersTie", "CoseProofs.Deep.Signers"],
     "C04": ["CoseProofs.FactsTie", "CoseProofs.Deep.Tamper"],
     "C05": ["CoseProofs.Deep.Reencode", "CoseProofs.Deep.Accept", "CoseProofs.Deep.SignMsg", "CoseProofs.Deep.NestedRoundTrip"],
     "C06": ["CoseProofs.Deep.NoPanic"],
     "C07": ["CoseProofs.Deep.Accept", "CoseProofs.Deep.Verifies"],
-    "C08": ["CoseProofs.Deep.Headers", "CoseProofs.Deep.RoundTrip", "CoseProofs.Deep.NestedRoundTrip"],
+    "C08": ["CoseProofs.Deep.Headers", "CoseProofs.Deep.RoundTrip", "CoseProofs.Deep.NestedRoundTrip", "CoseProofs.Deep.NestedBuckets"],
     "C09": ["CoseProofs.Deep.Reencode", "CoseProofs.Deep.SignMsg", "CoseProofs.Deep.ClearRaw"],
     "C11": ["CoseProofs.Deep.SignMsg"],
     "C10": ["CoseProofs.Deep.Tbs", "CoseProofs.FactsTie", "CoseProofs.Deep.Tamper", "CoseProofs.SignersTie"],
